@@ -57,7 +57,7 @@ def cases():
                "create_pressure_control": dict(from_junction=j[1], to_junction=j[2], controlled_junction=j[2], controlled_p_bar=3.0),
                "create_flow_control": dict(from_junction=j[1], to_junction=j[2], controlled_mdot_kg_per_s=0.1),
                "create_heat_consumer": dict(from_junction=j[1], to_junction=j[2], qext_w=100.0, controlled_mdot_kg_per_s=0.1)}[fn]
-        case = {"id": "def." + fn, "fn": fn, "rows": [], "raised": ""}
+        case = {"id": "def." + fn, "kind": "default", "fn": fn, "rows": [], "raised": ""}
         try:
             idx = getattr(pp, fn)(net, **req)
             row = net[table].loc[idx]
@@ -71,8 +71,107 @@ def cases():
     return out
 
 
+def _fresh():
+    import pandapipes as pp
+    from pandapipes.pandapipes_net import Sector
+    net = pp.create_empty_network(fluid="water")
+    j = pp.create_junctions(net, 3, 5.0, 300.0)
+    pp.create_ext_grid(net, j[0], 5.0, 300.0)
+    pp.create_pipe_from_parameters(net, j[0], j[1], 0.1, 80.0, index=4)
+    pp.create_sink(net, j[1], 0.1, index=2)
+    return net, [int(x) for x in j]
+
+
+def invalid_cases():
+    """every create function x every reference argument replaced by a missing junction / pipe / std type, a taken index,
+    inadmissible specifications; bulk functions with one bad row.  before/after: digests of everything in the net."""
+    import pandapipes as pp
+    from . import hist as H
+    net0, j = _fresh()
+    a, b, c = j
+    V = {  # fn -> valid kwargs
+        "create_junction": dict(pn_bar=5.0, tfluid_k=300.0),
+        "create_sink": dict(junction=b, mdot_kg_per_s=0.1), "create_source": dict(junction=b, mdot_kg_per_s=0.1),
+        "create_mass_storage": dict(junction=b, mdot_kg_per_s=0.1), "create_ext_grid": dict(junction=c, p_bar=4.0, t_k=300.0),
+        "create_heat_exchanger": dict(from_junction=b, to_junction=c, qext_w=100.0, inner_diameter_mm=80.0),
+        "create_pipe": dict(from_junction=b, to_junction=c, std_type="80_GGG", length_km=0.1),
+        "create_pipe_from_parameters": dict(from_junction=b, to_junction=c, length_km=0.1, inner_diameter_mm=80.0),
+        "create_valve": dict(junction=b, element=c, et="ju", inner_diameter_mm=80.0),
+        "create_pump": dict(from_junction=b, to_junction=c, std_type="P1"),
+        "create_pump_from_parameters": dict(from_junction=b, to_junction=c, new_std_type_name="newpump", pressure_list=[6.0, 5.0, 4.0],
+                                            flowrate_list=[0, 10, 20], reg_polynomial_degree=2),
+        "create_circ_pump_const_pressure": dict(return_junction=c, flow_junction=b, p_flow_bar=5.0, plift_bar=1.0, t_flow_k=350.0),
+        "create_circ_pump_const_mass_flow": dict(return_junction=c, flow_junction=b, p_flow_bar=5.0, mdot_flow_kg_per_s=0.5, t_flow_k=350.0),
+        "create_compressor": dict(from_junction=b, to_junction=c, pressure_ratio=1.2),
+        "create_pressure_control": dict(from_junction=b, to_junction=c, controlled_junction=c, controlled_p_bar=3.0),
+        "create_flow_control": dict(from_junction=b, to_junction=c, controlled_mdot_kg_per_s=0.1),
+        "create_heat_consumer": dict(from_junction=b, to_junction=c, qext_w=100.0, controlled_mdot_kg_per_s=0.1),
+        "create_junctions": dict(nr_junctions=2, pn_bar=5.0, tfluid_k=300.0),
+        "create_sinks": dict(junctions=[b, c], mdot_kg_per_s=0.1), "create_sources": dict(junctions=[b, c], mdot_kg_per_s=0.1),
+        "create_ext_grids": dict(junctions=[b, c], p_bar=4.0, t_k=300.0),
+        "create_pipes": dict(from_junctions=[a, b], to_junctions=[b, c], std_type="80_GGG", length_km=0.1),
+        "create_pipes_from_parameters": dict(from_junctions=[a, b], to_junctions=[b, c], length_km=0.1, inner_diameter_mm=80.0),
+        "create_valves": dict(junctions=[a, b], elements=[b, c], et="ju", inner_diameter_mm=80.0),
+        "create_pressure_controls": dict(from_junctions=[a, b], to_junctions=[b, c], controlled_junctions=[b, c], controlled_p_bar=3.0),
+        "create_flow_controls": dict(from_junctions=[a, b], to_junctions=[b, c], controlled_mdot_kg_per_s=0.1),
+        "create_heat_exchangers": dict(from_junctions=[a, b], to_junctions=[b, c], qext_w=100.0, inner_diameter_mm=80.0),
+        "create_heat_consumers": dict(from_junctions=[a, b], to_junctions=[b, c], qext_w=[100.0, 200.0], controlled_mdot_kg_per_s=[0.1, 0.2]),
+    }
+    out = []
+
+    def digs(net):
+        d = H.description_digests(net)
+        d["tables"] = ",".join(sorted(k for k in net.keys() if hasattr(net[k], "columns") and not k.startswith("_")))
+        return d
+
+    def attempt(fn, kw, kind, what):
+        net, _ = _fresh()
+        before = digs(net)
+        raised = ""
+        try:
+            r = getattr(pp, fn)(net, **kw)
+            if r is None and fn != "create_fluid_from_lib":
+                raised = "returned_None"
+        except Exception as e:  # noqa
+            raised = type(e).__name__
+        out.append({"id": "%s.%s.%s" % (kind, fn, what), "kind": kind, "fn": fn, "what": what, "raised": raised,
+                    "before": before, "after": digs(net), "rows": []})
+
+    for fn, kw in V.items():
+        if not hasattr(pp, fn):
+            continue
+        attempt(fn, kw, "valid", "")
+        for k, v in kw.items():
+            if (("junction" in k and k != "nr_junctions") or k in ("element", "elements")):
+                bad = 999 if not isinstance(v, list) else [v[0], 999]
+                attempt(fn, dict(kw, **{k: bad}), "invalid", "missing_" + k)
+            if k == "std_type":
+                attempt(fn, dict(kw, std_type="no_such_type"), "invalid", "missing_std_type")
+        tbl = {"create_pipe": "pipe", "create_pipes": "pipe", "create_pipe_from_parameters": "pipe", "create_pipes_from_parameters": "pipe",
+               "create_sink": "sink", "create_sinks": "sink"}.get(fn)
+        if tbl:       # an index that is already taken
+            taken = 4 if tbl == "pipe" else 2
+            bulk = isinstance(list(kw.values())[0], list)
+            attempt(fn, dict(kw, index=[taken, 77] if bulk else taken), "invalid", "taken_index")
+    # inadmissible heat-consumer specifications, single and per row in the bulk function
+    hc = dict(from_junction=b, to_junction=c)
+    for what, spec in (("dT_and_Tr", dict(deltat_k=10.0, treturn_k=320.0)), ("one_quantity", dict(qext_w=100.0)),
+                       ("three_quantities", dict(qext_w=100.0, controlled_mdot_kg_per_s=0.1, deltat_k=10.0))):
+        attempt("create_heat_consumer", dict(hc, **spec), "invalid", what)
+    nan = float("nan")
+    hcs = dict(from_junctions=[a, b], to_junctions=[b, c])
+    attempt("create_heat_consumers", dict(hcs, qext_w=[100.0, nan], controlled_mdot_kg_per_s=[0.1, nan], deltat_k=[nan, 10.0], treturn_k=[nan, 320.0]),
+            "invalid", "row_with_dT_and_Tr")
+    attempt("create_heat_consumers", dict(hcs, qext_w=[100.0, 100.0], controlled_mdot_kg_per_s=[0.1, nan]), "invalid", "row_with_one_quantity")
+    attempt("create_valve", dict(junction=c, element=4, et="pi", inner_diameter_mm=80.0), "invalid", "pipe_not_at_junction")
+    attempt("create_valve", dict(junction=b, element=999, et="pi", inner_diameter_mm=80.0), "invalid", "missing_pipe")
+    attempt("create_valve", dict(junction=b, element=4, et="pi", inner_diameter_mm=80.0), "valid", "pipe_valve")
+    attempt("create_valve", dict(junction=b, element=c, et="xx", inner_diameter_mm=80.0), "invalid", "unknown_et")
+    return out
+
+
 def run(V):
-    cs = cases()
+    cs = cases() + invalid_cases()
     sc = core.Scratch()
     try:
         p = sc.path("trace.ndjson")
@@ -84,4 +183,7 @@ def run(V):
                 V.report(cl[0], "%s.%s" % (cl[1], cl[2]), by[f["id"]], text="case=%s" % f["id"])
     finally:
         sc.cleanup()
-    return {"default_value_cells_compared": sum(len(c["rows"]) for c in cs), "create_functions_with_defaults_checked": len(cs)}
+    return {"default_value_cells_compared": sum(len(c["rows"]) for c in cs),
+            "create_functions_with_defaults_checked": sum(1 for c in cs if c["kind"] == "default"),
+            "invalid_argument_calls": sum(1 for c in cs if c["kind"] == "invalid"), "valid_control_calls": sum(1 for c in cs if c["kind"] == "valid"),
+            "invalid_argument_calls_refused": sum(1 for c in cs if c["kind"] == "invalid" and c["raised"])}
